@@ -7,7 +7,7 @@ Every case builds its own fresh classes and performs the loads IN ORDER in this 
 Class spec: {'name', 'engine': 'v0'|'v1', 'raise': bool, 'tag': None | {'tag', 'tag_key'},
              'catch': None | {'name', 'default': bool},
              'fields': [{'name', 'kind': 'int'|'nested', 'default': None|int, 'aliases': [..]|None,
-                         'path': [k1, k2]|None, 'cls': <class spec (nested)>}]}
+                         'path': [[k1, k2], ...]|None (alternative AliasPaths), 'cls': <class spec (nested)>}]}
 (the catch-all field is declared after the required fields, before defaulted ones when it has
 no default — see build()).
 """
@@ -18,7 +18,7 @@ from _util import *
 logging.disable(logging.CRITICAL)   # the library warns on every unknown key under the default policy
 
 
-def build(spec, registry, root=True):
+def build(spec, registry, root=True, bases=()):
     from dataclass_wizard import CatchAll
     req, opt = [], []
     for f in spec['fields']:
@@ -32,7 +32,7 @@ def build(spec, registry, root=True):
         if spec['engine'] == 'v1' and (f.get('aliases') or f.get('path')):
             from dataclass_wizard.v1 import Alias, AliasPath
             if f.get('path'):
-                fld = AliasPath('.'.join(f['path']), **kw)
+                fld = AliasPath(*['.'.join(p) for p in f['path']], **kw)
             else:
                 fld = Alias(*f['aliases'], **kw)
         else:
@@ -44,7 +44,7 @@ def build(spec, registry, root=True):
             opt.append((c['name'], CatchAll, dataclasses.field(default=None)))
         else:
             req.append((c['name'], CatchAll, dataclasses.field()))
-    cls = dataclasses.make_dataclass(spec['name'], req + opt)
+    cls = dataclasses.make_dataclass(spec['name'], req + opt, bases=tuple(bases) if root else ())
     cls.__qualname__ = spec['name']
     registry[spec['name']] = cls
     if root:
@@ -88,12 +88,31 @@ def view(inst, spec):
     return out
 
 
-def one_load(cls, spec, doc):
-    from dataclass_wizard import fromdict, asdict
+def construct(spec, registry):
+    """an instance built directly (no loader involved), every field given explicitly"""
+    kw = {}
+    for f in spec['fields']:
+        kw[f['name']] = construct(f['cls'], registry) if f['kind'] == 'nested' else 5
+    c = spec.get('catch')
+    if c and not c['default']:
+        kw[c['name']] = {}
+    return registry[spec['name']](**kw)
+
+
+def one_load(cls, spec, doc, entry):
+    from dataclass_wizard import fromdict, asdict, fromlist
     from dataclass_wizard.errors import UnknownKeysError
+    import json
     before = copy.deepcopy(doc)
     try:
-        inst = fromdict(cls, doc)
+        if entry == 'jsonwizard':
+            inst = cls.from_dict(doc)
+        elif entry == 'from_json':
+            inst = cls.from_json(json.dumps(doc))
+        elif entry == 'fromlist':
+            inst = fromlist(cls, [doc])[0]
+        else:
+            inst = fromdict(cls, doc)
     except UnknownKeysError as e:
         r = err_info(e)
         uk = e.unknown_keys
@@ -107,9 +126,8 @@ def one_load(cls, spec, doc):
         return r
     r = {'ok': view(inst, spec), 'input_unchanged': (doc == before)}
     try:
-        d = asdict(inst)
+        d = inst.to_dict() if entry in ('jsonwizard', 'from_json') else asdict(inst)
         r['dump'] = d
-        import json
         json.dumps(d)
     except BaseException as e:
         r['dump_err'] = err_info(e)
@@ -118,12 +136,22 @@ def one_load(cls, spec, doc):
 
 def run_case(case):
     registry = {}
+    entry = case.get('entry', 'fromdict')
     try:
-        cls = build(case['cls'], registry)
+        bases = ()
+        if entry in ('jsonwizard', 'from_json'):
+            from dataclass_wizard import JSONWizard
+            bases = (JSONWizard,)
+        cls = build(case['cls'], registry, bases=bases)
+        if case.get('pre') == 'dump':
+            # history: the class is DUMPED (instance built by hand) before anything is loaded
+            from dataclass_wizard import asdict
+            inst = construct(case['cls'], registry)
+            inst.to_dict() if bases else asdict(inst)
     except BaseException as e:
         r = err_info(e); r['phase'] = 'setup'
         return [r for _ in case['loads']]
-    return [one_load(cls, case['cls'], doc) for doc in case['loads']]
+    return [one_load(cls, case['cls'], doc, entry) for doc in case['loads']]
 
 
 def run_witness(w):
